@@ -791,7 +791,13 @@ impl SymbolicBDD {
                     }
                 }
             } else if let Some(number) = c.name("countable") {
-                let parsed_number = number.as_str().parse().expect("Failed to parse number");
+                // \d also matches non-ASCII digits and the literal may exceed usize
+                let parsed_number = number.as_str().parse().map_err(|e| {
+                    io::Error::new(
+                        io::ErrorKind::InvalidData,
+                        format!("Failed to parse number {}: {}", number.as_str(), e),
+                    )
+                })?;
                 result.push(SymbolicBDDToken::Countable(parsed_number));
             } else if c.name("eof").is_some() {
                 result.push(SymbolicBDDToken::Eof);
